@@ -34,6 +34,7 @@ structure Conn where
   created : Nat := 0           -- number of temp files created so far (next id)
   maxLive : Nat := 0
   written : Nat := 0           -- the largest number of body bytes written to any one upload file so far
+  inputErr : Bool := false     -- the client's stream ends with a socket error (reset) instead of end-of-stream
 deriving Repr, DecidableEq
 
 def cap : Nat := 8192
@@ -112,7 +113,9 @@ def readBodyToVec (c : Conn) : Conn × Except HttpError BodyVal :=
         else ({ c with input := [] }, .error .truncated)
       | none =>
         let c := { c with rs := .shutdown }
-        ({ c with input := [] }, .ok (.vec c.input))
+        -- `read_to_end`: the body runs to the end of the stream; a read error is `Truncated`, not the end
+        if c.inputErr then ({ c with input := [] }, .error .truncated)
+        else ({ c with input := [] }, .ok (.vec c.input))
 
 /-- File-system behaviour of one upload: creating the temp file may fail; writing may fail. -/
 structure FsFault where
@@ -167,9 +170,11 @@ def readBodyToFile (c : Conn) (maxLen : Nat) (fs : FsFault) : Conn × Except Htt
         let c := w.1
         let lim := min (maxLen + 1) (2 ^ 64 - 1)
         let got := c.input.take lim
-        -- bytes beyond `max_len + 1` stay unread on the socket; the connection is closed afterwards
+        -- bytes beyond `max_len + 1` stay unread on the socket; the connection is closed afterwards.
+        -- A read error met before the limit is `Truncated` (`CopyResult::ReaderErr`), not the end of the body.
         storeUpload { c with rs := .shutdown, input := c.input.drop lim } fs got
-          (if maxLen < got.length then some .bodyTooLong else none)
+          (if c.inputErr && c.input.length < lim then some .truncated
+           else if maxLen < got.length then some .bodyTooLong else none)
 
 /-! ### Arbitrary call sequences (C05) -/
 
